@@ -21,7 +21,7 @@ SCHED_NOTE = ("schedules: proved for every interleaving of whole critical sectio
 # correspondence runs: (primitive, configuration) -> how deep
 RUNS = [
     dict(name="event-k3", prim="event", cfg="3 0", flavours=["local", "sync"],
-         quick=dict(explore=200000, random=(300, 60)), thorough=dict(explore=2000000, random=(5000, 200)),
+         quick=dict(explore=200000, random=(300, 60), scale=(80, 80, 30)), thorough=dict(explore=2000000, random=(5000, 200), scale=(800, 120, 30)),
          random_cfg="12 0"),
     dict(name="event-k3-set", prim="event", cfg="3 1", flavours=["local", "sync"],
          quick=dict(explore=200000), thorough=dict(explore=2000000)),
@@ -29,18 +29,18 @@ RUNS = [
          quick=dict(explore=30000), thorough=dict(explore=3000000), corpus=False),
     # mutex: cfg = slots, fair
     dict(name="mutex-k3-unfair", prim="mutex", cfg="3 0", flavours=["local", "sync"],
-         quick=dict(explore=500000, random=(300, 80)), thorough=dict(explore=500000, random=(5000, 300)), random_cfg="10 0"),
+         quick=dict(explore=500000, random=(300, 80), scale=(80, 80, 30)), thorough=dict(explore=500000, random=(5000, 300), scale=(800, 120, 30)), random_cfg="10 0"),
     dict(name="mutex-k3-fair", prim="mutex", cfg="3 1", flavours=["local", "sync"],
-         quick=dict(explore=500000, random=(300, 80)), thorough=dict(explore=500000, random=(5000, 300)), random_cfg="10 1"),
+         quick=dict(explore=500000, random=(300, 80), scale=(80, 80, 30)), thorough=dict(explore=500000, random=(5000, 300), scale=(800, 120, 30)), random_cfg="10 1"),
     dict(name="mutex-k4-unfair", prim="mutex", cfg="4 0", flavours=["local"],
          quick=dict(explore=30000), thorough=dict(explore=3000000), corpus=False),
     dict(name="mutex-k4-fair", prim="mutex", cfg="4 1", flavours=["local"],
          quick=dict(explore=30000), thorough=dict(explore=3000000), corpus=False),
     # semaphore: cfg = slots, fair, initial permits, max request, max releasers, permit budget, fixed(=1: the model the theorems are about)
     dict(name="sem-k2-unfair", prim="semaphore", cfg="2 0 0 3 1 3 1", flavours=["local", "sync", "shared"],
-         quick=dict(explore=400000, random=(300, 80)), thorough=dict(explore=400000, random=(5000, 300)), random_cfg="8 0 2 4 4 12 1"),
+         quick=dict(explore=400000, random=(300, 80), scale=(80, 80, 30)), thorough=dict(explore=400000, random=(5000, 300), scale=(800, 120, 30)), random_cfg="8 0 2 4 4 12 1"),
     dict(name="sem-k2-fair", prim="semaphore", cfg="2 1 0 3 1 3 1", flavours=["local", "sync", "shared"],
-         quick=dict(explore=400000, random=(300, 80)), thorough=dict(explore=400000, random=(5000, 300)), random_cfg="8 1 2 4 4 12 1"),
+         quick=dict(explore=400000, random=(300, 80), scale=(80, 80, 30)), thorough=dict(explore=400000, random=(5000, 300), scale=(800, 120, 30)), random_cfg="8 1 2 4 4 12 1"),
     dict(name="sem-k2-unfair-p1", prim="semaphore", cfg="2 0 1 3 2 3 1", flavours=["local"],
          quick=dict(explore=400000), thorough=dict(explore=400000)),
     dict(name="sem-k2-fair-p1", prim="semaphore", cfg="2 1 1 3 2 3 1", flavours=["local"],
@@ -66,11 +66,11 @@ RUNS = [
 RUNS += [
     # mpmc: cfg = receive slots, send slots, capacity, shared, max handles per side
     dict(name="mpmc-c0", prim="mpmc", cfg="2 2 0 0 0", flavours=["local", "sync"],
-         quick=dict(explore=1000000, random=(300, 80)), thorough=dict(explore=1000000, random=(5000, 300)), random_cfg="6 6 0 0 0"),
+         quick=dict(explore=1000000, random=(300, 80), scale=(80, 80, 30)), thorough=dict(explore=1000000, random=(5000, 300), scale=(800, 120, 30)), random_cfg="6 6 0 0 0"),
     dict(name="mpmc-c1", prim="mpmc", cfg="2 1 1 0 0", flavours=["local", "sync", "fixed", "growing"],
-         quick=dict(explore=1000000, random=(300, 80)), thorough=dict(explore=1000000, random=(5000, 300)), random_cfg="6 6 1 0 0"),
+         quick=dict(explore=1000000, random=(300, 80), scale=(80, 80, 30)), thorough=dict(explore=1000000, random=(5000, 300), scale=(800, 120, 30)), random_cfg="6 6 1 0 0"),
     dict(name="mpmc-c2", prim="mpmc", cfg="1 2 2 0 0", flavours=["local", "fixed"],
-         quick=dict(explore=1000000, random=(300, 80)), thorough=dict(explore=1000000, random=(5000, 300)), random_cfg="6 6 2 0 0"),
+         quick=dict(explore=1000000, random=(300, 80), scale=(80, 80, 30)), thorough=dict(explore=1000000, random=(5000, 300), scale=(800, 120, 30)), random_cfg="6 6 2 0 0"),
     dict(name="mpmc-c1-22", prim="mpmc", cfg="2 2 1 0 0", flavours=["local"],
          quick=dict(explore=0), thorough=dict(explore=4000000), corpus=False),
     dict(name="mpmc-c1-31", prim="mpmc", cfg="3 1 1 0 0", flavours=["local"],
@@ -78,33 +78,33 @@ RUNS += [
     dict(name="mpmc-c2-22", prim="mpmc", cfg="2 2 2 0 0", flavours=["local"],
          quick=dict(explore=30000, random=(400, 40)), thorough=dict(explore=6000000), corpus=False),
     dict(name="mpmc-shared-c0", prim="mpmc", cfg="1 1 0 1 2", flavours=["shared", "shared-growing"],
-         quick=dict(explore=1000000, random=(300, 80)), thorough=dict(explore=1000000, random=(5000, 300)), random_cfg="4 4 0 1 3"),
+         quick=dict(explore=1000000, random=(300, 80), scale=(80, 80, 30)), thorough=dict(explore=1000000, random=(5000, 300), scale=(800, 120, 30)), random_cfg="4 4 0 1 3"),
     dict(name="mpmc-shared-c1", prim="mpmc", cfg="1 1 1 1 2", flavours=["shared", "shared-growing"],
-         quick=dict(explore=1000000, random=(300, 80)), thorough=dict(explore=1000000, random=(5000, 300)), random_cfg="4 4 2 1 3"),
+         quick=dict(explore=1000000, random=(300, 80), scale=(80, 80, 30)), thorough=dict(explore=1000000, random=(5000, 300), scale=(800, 120, 30)), random_cfg="4 4 2 1 3"),
     dict(name="mpmc-shared-c1-h3", prim="mpmc", cfg="2 1 1 1 3", flavours=["shared"],
          quick=dict(explore=40000, random=(300, 40)), thorough=dict(explore=4000000), corpus=False),
     # oneshot: cfg = slots, broadcast, counted receivers (1 = what C11 requires), shared, max receiver handles
     dict(name="oneshot-local", prim="oneshot", cfg="3 0 1 0 0", flavours=["local", "sync"],
-         quick=dict(explore=1000000, random=(200, 40)), thorough=dict(explore=1000000, random=(3000, 100)), random_cfg="8 0 1 0 0"),
+         quick=dict(explore=1000000, random=(200, 40), scale=(80, 80, 30)), thorough=dict(explore=1000000, random=(3000, 100), scale=(800, 120, 30)), random_cfg="8 0 1 0 0"),
     dict(name="bcast-local", prim="oneshot", cfg="3 1 1 0 0", flavours=["local", "sync"],
-         quick=dict(explore=1000000, random=(200, 40)), thorough=dict(explore=1000000, random=(3000, 100)), random_cfg="8 1 1 0 0"),
+         quick=dict(explore=1000000, random=(200, 40), scale=(80, 80, 30)), thorough=dict(explore=1000000, random=(3000, 100), scale=(800, 120, 30)), random_cfg="8 1 1 0 0"),
     dict(name="oneshot-shared", prim="oneshot", cfg="2 0 1 1 1", flavours=["shared"],
-         quick=dict(explore=1000000, random=(200, 40)), thorough=dict(explore=1000000, random=(3000, 100))),
+         quick=dict(explore=1000000, random=(200, 40), scale=(80, 80, 30)), thorough=dict(explore=1000000, random=(3000, 100), scale=(800, 120, 30)), random_cfg="8 0 1 1 1"),
     dict(name="bcast-shared", prim="oneshot", cfg="2 1 1 1 3", flavours=["shared"],
-         quick=dict(explore=1000000, random=(200, 40)), thorough=dict(explore=1000000, random=(3000, 100))),
+         quick=dict(explore=1000000, random=(200, 40), scale=(80, 80, 30)), thorough=dict(explore=1000000, random=(3000, 100), scale=(800, 120, 30)), random_cfg="8 1 1 1 3"),
 ]
 
 RUNS += [
     # state broadcast: cfg = slots, shared, max handles, max sends
     dict(name="state-local", prim="state", cfg="2 0 0 2", flavours=["local", "sync"],
-         quick=dict(explore=1000000, random=(200, 60)), thorough=dict(explore=1000000, random=(3000, 150)), random_cfg="6 0 0 8"),
+         quick=dict(explore=1000000, random=(200, 60), scale=(80, 80, 30)), thorough=dict(explore=1000000, random=(3000, 150), scale=(800, 120, 30)), random_cfg="6 0 0 8"),
     dict(name="state-shared", prim="state", cfg="2 1 2 2", flavours=["shared"],
-         quick=dict(explore=1000000, random=(200, 60)), thorough=dict(explore=1000000, random=(3000, 150)), random_cfg="6 1 3 8"),
+         quick=dict(explore=1000000, random=(200, 60), scale=(80, 80, 30)), thorough=dict(explore=1000000, random=(3000, 150), scale=(800, 120, 30)), random_cfg="6 1 3 8"),
     dict(name="state-k3", prim="state", cfg="3 0 0 3", flavours=["local"],
          quick=dict(explore=30000), thorough=dict(explore=4000000), corpus=False),
     # timer: cfg = slots, distinct deadlines, max time
     dict(name="timer-k3", prim="timer", cfg="3 2 2", flavours=["local", "sync"],
-         quick=dict(explore=1000000, random=(200, 80)), thorough=dict(explore=1000000, random=(3000, 300)), random_cfg="12 6 8"),
+         quick=dict(explore=1000000, random=(200, 80), scale=(80, 80, 60)), thorough=dict(explore=1000000, random=(3000, 300), scale=(800, 120, 60)), random_cfg="12 6 8"),
     dict(name="timer-k4", prim="timer", cfg="4 2 2", flavours=["local"],
          quick=dict(explore=2000000), thorough=dict(explore=2000000)),
     dict(name="timer-k4-d3", prim="timer", cfg="4 3 3", flavours=["local", "sync"],
